@@ -14,6 +14,10 @@ from vlib.fsmt.solve import check, model_value2, MAX_BV_WIDTH
 from vlib import replay as RP
 
 
+class _UnboundInTransformed(Exception):
+    pass
+
+
 class Prog:
     """a program = routines + modules + entry routine (objects), and a way to print it as compilable Fortran"""
 
@@ -53,6 +57,9 @@ def _interpret(sem, prog, sizes, include_locals, unwind, int_bound):
     it = Interp(sem, prog.routines, prog.modules, sizes, unwind=unwind)
     it.int_bound = int_bound
     fr = it.run_entry(prog.entry, absent=prog.absent)
+    for m in prog.modules:
+        it.frame = fr
+        it.module_frame(m)      # every module's variables are observable, whether touched or not
     obs = observable(it, fr, prog.entry, include_locals)
     return it, fr, obs
 
@@ -102,7 +109,12 @@ def check_equiv(p1, p2, sizes, include_locals=(), unwind=5, int_bound=6, timeout
         sem = Sem(real_mode, int_mode=int_mode, width=width)
         it1, fr1, obs1 = _interpret(sem, p1, sizes, include_locals, unwind, int_bound)
         n1 = len(sem.defined)
-        it2, fr2, obs2 = _interpret(sem, p2, sizes, include_locals, unwind, int_bound)
+        try:
+            it2, fr2, obs2 = _interpret(sem, p2, sizes, include_locals, unwind, int_bound)
+        except NotEncoded as ex:
+            if 'unbound variable' in str(ex):
+                raise _UnboundInTransformed(str(ex)) from ex
+            raise
         assume, viol, why = _violation(sem, it1, obs1, it2, obs2, n1)
         return sem, it1, it2, obs1, obs2, assume, viol, why
 
@@ -110,6 +122,11 @@ def check_equiv(p1, p2, sizes, include_locals=(), unwind=5, int_bound=6, timeout
     for real_mode in real_ladder:
         try:
             sem, it1, it2, obs1, obs2, assume, viol, why = attempt(real_mode)
+        except _UnboundInTransformed as ex:
+            # the original is interpretable but the transformed program refers to a name that is neither declared,
+            # imported nor host-associated: candidate, decided by the compiler replay (model: default inputs)
+            return {'verdict': 'sat', 'model': {}, 'differences': [('transformed program', 'all names bound', str(ex))],
+                    'trap2': False, 'trap2_reasons': [], 'mode': 'structural', 'seconds': time.time() - t0}
         except NotEncoded as ex:
             return {'verdict': 'notenc', 'why': str(ex), 'seconds': time.time() - t0}
         except (TypeError, NeedIntMode, z3.Z3Exception) as ex:
@@ -217,7 +234,7 @@ def driver_source(entry, sizes, model, tag, absent=()):
             return
         if k is None:
             raise NotEncoded(f'replay of argument type {t.dtype}')
-        shape = getattr(a, 'shape', None)
+        shape = (getattr(a, 'dimensions', None) if isinstance(a, sym.Array) else None) or getattr(a, 'shape', None)
         if isinstance(a, sym.Array) or shape:
             bounds = []
             for d in shape:
